@@ -91,6 +91,8 @@ func TestSim(t *testing.T) {
 	type enumSpec struct {
 		param, key string
 		max        int
+		extraK     string
+		extraV     int
 	}
 	var enums []enumSpec
 	if e := os.Getenv("VERIF_ENUM"); e != "" {
@@ -99,6 +101,12 @@ func TestSim(t *testing.T) {
 			es := enumSpec{param: parts[0], key: parts[1], max: 100000}
 			if len(parts) > 2 {
 				es.max, _ = strconv.Atoi(parts[2])
+			}
+			if len(parts) > 3 {
+				if i := strings.IndexByte(parts[3], '='); i > 0 {
+					es.extraK = parts[3][:i]
+					es.extraV, _ = strconv.Atoi(parts[3][i+1:])
+				}
 			}
 			enums = append(enums, es)
 		}
@@ -137,7 +145,7 @@ func TestSim(t *testing.T) {
 				if n > es.max {
 					n = es.max
 				}
-				res.Stats["enum.positions."+es.param] = n
+				res.Stats["enum.positions."+es.param+es.extraK] = n
 				res.Stats["enum.positions"] += n
 				for k := 1; k <= n; k++ {
 					p2 := map[string]int{}
@@ -145,6 +153,9 @@ func TestSim(t *testing.T) {
 						p2[a] = b
 					}
 					p2[es.param] = k
+					if es.extraK != "" {
+						p2[es.extraK] = es.extraV
+					}
 					if m := params[es.param+"2max"]; m > 0 {
 						p2[es.param+"2"] = (k * 7919) % (m + 1)
 					}
